@@ -279,3 +279,43 @@ package gossipval
 //@   ensures accept_subnet: res.Result == ACCEPT ==> (let isc := ce_epc(ch_entry_at(old(gvver), syncCommMessage.BeaconBlockRoot, syncCommMessage.Slot)).CurrentSyncCommittee in exists i :: 0 <= i && i < len(isc.Indices) && isc.Indices[i] == syncCommMessage.ValidatorIndex && i / (gv_spec(scpVal).SYNC_COMMITTEE_SIZE / common.SYNC_COMMITTEE_SUBNET_COUNT) == subnet)
 //@   ensures reject_not_timing: res.Result == REJECT ==> syncCommMessage.Slot <= gv_slot_after(old(gvver), MAXIMUM_GOSSIP_CLOCK_DISPARITY) && ch_known_at(old(gvver), syncCommMessage.BeaconBlockRoot, syncCommMessage.Slot)
 //@   ensures marks: n_mark_syncmsg == old(n_mark_syncmsg) + ite(res.Result == ACCEPT, 1, 0) && (res.Result != ACCEPT ==> gvver == old(gvver))
+
+// ---------------------------------------------------------------- sync_committee_contribution_and_proof topic (C12)
+
+//@ ghost n_mark_contrib int
+//@ ufun gv_seen_contrib(int, VIdx, SlotT, int) bool
+
+//@ func (b SyncContribAndProofValBackend) SeenContribution(aggregator, slot, subnet) r
+//@   trusted
+//@   opt noalloc
+//@   ensures r == gv_seen_contrib(gvver, aggregator, slot, subnet)
+
+//@ func (b SyncContribAndProofValBackend) MarkContribution(aggregator, slot, subnet)
+//@   trusted
+//@   opt noalloc
+//@   assigns ghost(gvver), ghost(n_mark_contrib)
+//@   ensures n_mark_contrib == old(n_mark_contrib) + 1
+
+// I contribution for the current slot; R subcommittee index in range; R has participants; R selection proof
+// selects an aggregator; R aggregator is a member of the subcommittee; I first contribution of
+// (aggregator, slot, subcommittee); R selection proof, outer signature and aggregate signature valid; marked iff ACCEPT.
+// Assumed: the chain's epochs contexts use the node's Spec object and hold a full-size sync committee.
+//@ func ValidateSyncContribAndProof(ctx, signedContribAndProof, scpVal) (comm, res)
+//@   property C12
+//@   requires signedContribAndProof != nil && scpVal != nil
+//@   requires synccomm: forall e EntryI :: {ce_epc(e)} !ce_epc_err(e) && ce_epc(e).CurrentSyncCommittee != nil ==> len(ce_epc(e).CurrentSyncCommittee.CachedPubkeys) == gv_spec(scpVal).SYNC_COMMITTEE_SIZE && len(ce_epc(e).CurrentSyncCommittee.Indices) == gv_spec(scpVal).SYNC_COMMITTEE_SIZE
+//@   assigns ghost(gvver), ghost(n_mark_contrib), heap(CachedPubkey.decompressed)
+//@   ensures accept_timing: res.Result == ACCEPT ==> signedContribAndProof.Message.Contribution.Slot >= gv_slot_after(old(gvver), -MAXIMUM_GOSSIP_CLOCK_DISPARITY) && signedContribAndProof.Message.Contribution.Slot <= gv_slot_after(old(gvver), MAXIMUM_GOSSIP_CLOCK_DISPARITY)
+//@   ensures accept_shape: res.Result == ACCEPT ==> signedContribAndProof.Message.Contribution.SubcommitteeIndex < common.SYNC_COMMITTEE_SUBNET_COUNT && bl_count(signedContribAndProof.Message.Contribution.AggregationBits) >= 1
+//@   ensures accept_selected: res.Result == ACCEPT ==> sync_is_aggregator(gv_spec(scpVal), signedContribAndProof.Message.SelectionProof)
+//@   ensures accept_known: res.Result == ACCEPT ==> ch_known_at(old(gvver), signedContribAndProof.Message.Contribution.BeaconBlockRoot, signedContribAndProof.Message.Contribution.Slot) && !ce_epc_err(ch_entry_at(old(gvver), signedContribAndProof.Message.Contribution.BeaconBlockRoot, signedContribAndProof.Message.Contribution.Slot))
+//@   ensures accept_member: res.Result == ACCEPT ==> (let isc := ce_epc(ch_entry_at(old(gvver), signedContribAndProof.Message.Contribution.BeaconBlockRoot, signedContribAndProof.Message.Contribution.Slot)).CurrentSyncCommittee in let sz := gv_spec(scpVal).SYNC_COMMITTEE_SIZE / common.SYNC_COMMITTEE_SUBNET_COUNT in exists i :: signedContribAndProof.Message.Contribution.SubcommitteeIndex * sz <= i && i < (signedContribAndProof.Message.Contribution.SubcommitteeIndex + 1) * sz && isc.Indices[i] == signedContribAndProof.Message.AggregatorIndex)
+//@   ensures accept_first: res.Result == ACCEPT ==> !gv_seen_contrib(old(gvver), signedContribAndProof.Message.AggregatorIndex, signedContribAndProof.Message.Contribution.Slot, signedContribAndProof.Message.Contribution.SubcommitteeIndex)
+//@   ensures accept_selection_proof: res.Result == ACCEPT ==> sync_sel_ok(old(gvver), gv_spec(scpVal), ce_epc(ch_entry_at(old(gvver), signedContribAndProof.Message.Contribution.BeaconBlockRoot, signedContribAndProof.Message.Contribution.Slot)), signedContribAndProof.Message.AggregatorIndex, signedContribAndProof.Message.SelectionProof, signedContribAndProof.Message.Contribution.Slot, signedContribAndProof.Message.Contribution.SubcommitteeIndex)
+//@   ensures accept_signature: res.Result == ACCEPT ==> scp_sig_ok(old(gvver), gv_spec(scpVal), ce_epc(ch_entry_at(old(gvver), signedContribAndProof.Message.Contribution.BeaconBlockRoot, signedContribAndProof.Message.Contribution.Slot)), *signedContribAndProof)
+//@   ensures accept_contribution_signature: res.Result == ACCEPT ==> (exists ps CPubsT :: contrib_sig_ok(old(gvver), gv_spec(scpVal), ps, signedContribAndProof.Message.Contribution) && len(ps) == gv_spec(scpVal).SYNC_COMMITTEE_SIZE / common.SYNC_COMMITTEE_SUBNET_COUNT && (let isc := ce_epc(ch_entry_at(old(gvver), signedContribAndProof.Message.Contribution.BeaconBlockRoot, signedContribAndProof.Message.Contribution.Slot)).CurrentSyncCommittee in forall j :: {ps[j]} 0 <= j && j < len(ps) ==> ps[j] == isc.CachedPubkeys[signedContribAndProof.Message.Contribution.SubcommitteeIndex * len(ps) + j]))
+//@   ensures accept_result: res.Result == ACCEPT ==> len(comm) == gv_spec(scpVal).SYNC_COMMITTEE_SIZE / common.SYNC_COMMITTEE_SUBNET_COUNT
+//@   ensures reject_not_timing: res.Result == REJECT ==> signedContribAndProof.Message.Contribution.Slot >= gv_slot_after(old(gvver), -MAXIMUM_GOSSIP_CLOCK_DISPARITY) && signedContribAndProof.Message.Contribution.Slot <= gv_slot_after(old(gvver), MAXIMUM_GOSSIP_CLOCK_DISPARITY)
+//@   ensures marks: n_mark_contrib == old(n_mark_contrib) + ite(res.Result == ACCEPT, 1, 0) && (res.Result != ACCEPT ==> gvver == old(gvver))
+//@   loop 1
+//@     invariant forall k :: {indices[k]} 0 <= k && k <= rangeindex ==> indices[k] != signedContribAndProof.Message.AggregatorIndex
